@@ -198,10 +198,10 @@ Proof.
       * lia.
       * intros _ x Hx. now split.
   - (* PopRd: read of the item pointer (and of its successor) *)
-    destruct (hitem c) as [it|] eqn:Ehd.
+    destruct (hitem c) as [it|] eqn:Ehd; rewrite ?Ehd in Hlnk.
     + exists s. apply (Inv_update c s t th _ _ _ _ _ s HI Hth).
       * exact Hrep.
-      * now rewrite Ehd.
+      * exact Hlnk.
       * rewrite !held_eq, Epc. reflexivity.
       * cbn [t_pc mkth pc_ok]. split; [assumption|]. intros _. split; [|reflexivity].
         destruct s as [|x r]; cbn in Hlnk; [discriminate|]. destruct Hlnk as [E _].
@@ -283,7 +283,7 @@ Proof.
     + exact Hrep.
     + apply (seg_ext (nxt c)); [|assumption]. intros x Hx. apply set_other. intros ->. contradiction.
     + rewrite !held_eq, Epc. cbn [fin mkth t_own t_pc infl]. rewrite app_nil_r.
-      apply Permutation_app_head. symmetry. apply Permutation_cons_append.
+      apply Permutation_app_head. apply Permutation_cons_append.
     + exact I.
     + intros x Hx. apply set_other. intros ->. apply Hx. apply in_or_app. right.
       rewrite held_eq, Epc. apply in_or_app. right. now left.
